@@ -212,6 +212,44 @@ def document_clone(run: Run, stream):
     run.count("document clone", f"{len(pro)}+{len(epi)}")
 
 
+def wide_clones(run: Run, stream):
+    """cloning is not bounded by the number of children: a node with many children (more than the interpreter's
+    recursion limit) is cloned like any other (seeded C10-7: all children handed to one recursive call)"""
+    import copy as _copy
+    import sys
+
+    import trees
+    from delb import Document, new_comment_node, new_tag_node, tag
+
+    width = sys.getrecursionlimit() + 300
+    for how in ("clone", "deepcopy", "Document.clone"):
+        body = new_tag_node("body")
+        kids = []
+        for i in range(width):
+            kids.append(tag("e") if i % 3 else ("t%d" % i if i % 2 else new_comment_node("c%d" % i)))
+            if len(kids) == 200:
+                body.append_children(*kids)
+                kids = []
+        if kids:
+            body.append_children(*kids)
+        root = new_tag_node("r", children=[body])
+        keep = [root, body] + list(body.iterate_children())  # noqa: F841
+        case = {"sub": ["wide", how], "children": width}
+        run.case(stream, case, True)
+        try:
+            if how == "clone":
+                c = root.clone(deep=True)
+            elif how == "deepcopy":
+                c = _copy.deepcopy(root)
+            else:
+                c = Document(root).clone().root
+        except Exception as e:  # noqa: BLE001
+            run.violation(stream, case, {"why": f"cloning a node with {width} children raised {type(e).__name__}"})
+            continue
+        if trees.extract(c) != trees.extract(root):
+            run.violation(stream, case, {"why": f"the clone of a node with {width} children differs from the original"})
+
+
 def compare_with_model(run: Run, rows):
     if not rows:
         return
@@ -228,7 +266,8 @@ def check(run: Run, lean: dict) -> int:
     run.extra["rule"] = (
         "forests reached by random Legal histories; up to 4 nodes of any kind cloned per forest (deep, shallow, "
         "copy.copy, copy.deepcopy), each followed by up to 4 random edits confined to the clone or to the rest with the "
-        "other side re-dumped; plus Document.clone with 0-3 prologue/epilogue nodes; non-trivial = cloned tag with children"
+        "other side re-dumped; plus Document.clone with 0-3 prologue/epilogue nodes; plus clones of a node with more children "
+        "than the recursion limit; non-trivial = cloned tag with children"
     )
     ok = lean.get("driver_ok", True) and lean.get("clone_cmd", True)
     rows = []
@@ -236,6 +275,7 @@ def check(run: Run, lean: dict) -> int:
         run_one(run, "generated", E.pick_doc(run.rng, DOCS), None, run.rng.randint(0, 10), rows)
     for _ in range(n // 3):
         document_clone(run, "document")
+    wide_clones(run, "wide")
     if ok:
         compare_with_model(run, rows)
     return run.finish(lean, LEVEL, ASSUME, search=search)
